@@ -10,10 +10,12 @@ from lib import common, play, stories
 
 LEVEL = "proof"
 HARNESS_FEATURES = [[], ["stream"]]
-THEOREM_MODULES = ["Proofs.C14"]
+THEOREM_MODULES = ["Proofs.C14", "Proofs.Tables"]
 REQUIRED_THEOREMS = ["Ink.C14.toDigit16_eq_hexVal", "Ink.C14.readHex4_eq", "Ink.C14.readStringContent_eq_parseStrBody",
                      "Ink.C14.parse_escapeChars", "Ink.C14.stream_escapeChars", "Ink.C14.parse_escapeAscii",
                      "Ink.C14.stream_escapeAscii", "Ink.C14.both_loaders_read_the_same_text"]
+from lib.tables_thms import TABLE_THEOREMS  # noqa: E402
+REQUIRED_THEOREMS = REQUIRED_THEOREMS + TABLE_THEOREMS
 RULE = ("a case = one story document (reference corpus, this compiler on the corpus and on generated programs, each "
         "also with hostile text — tabs, quotes, backslashes, control characters, non-BMP characters, U+2028 — "
         "injected into its text nodes) x one layout (as emitted; every non-ASCII character escaped as \\uXXXX; "
